@@ -72,7 +72,7 @@ def fd_any(fdk, kinds):
 
 
 def run(prop, tier, seed, profile, spec, interest, proof_files, n_quick=1500, n_thorough=20000,
-        assumptions=(), rule_extra='', extra_cases=None, chart_hook=None, level='proof', post=None):
+        assumptions=(), rule_extra='', extra_cases=None, chart_hook=None, level='proof', post=None, consts=False):
     """interest(mask, fdk, mcode, case) -> None or a short clause name (a violation of THIS property)."""
     t0 = time.time()
     v = Verdict(prop)
@@ -111,6 +111,15 @@ def run(prop, tier, seed, profile, spec, interest, proof_files, n_quick=1500, n_
                         no_input=True)
             n_viol += 1
     extra_cov = {}
+    if consts:
+        import extract_consts
+        ci = extract_consts.write_and_check(prop)
+        extra_cov['regenerated_constants'] = dict(obligations=ci['obligations'], ok=ci['ok'], notes=ci['notes'], extracted=ci['extracted'])
+        if ci['ok'] is False and n_viol == 0:
+            v.violation(dict(property=prop, broken='constants regenerated from the source no longer equal those the model and the '
+                                                   'theorems were written against, and no run of this check misbehaved',
+                             obligations=ci['obligations'], extracted=ci['extracted'], log=ci['log']), tag='consts', no_input=True)
+            n_viol += 1
     if post:
         r = post(v, charts, cases, masks)
         if isinstance(r, tuple):
@@ -143,6 +152,8 @@ def run(prop, tier, seed, profile, spec, interest, proof_files, n_quick=1500, n_
              'pre-configuration, queues, context, time, outcome). ' + rule_extra,
         traces_validated_against_impl=len(cases), charts=stats['charts'], errors_hit=stats['errors'],
         input_distribution=dist, mismatches_attributed_to_this_property=clauses,
+        hypotheses_on_the_charts_that_were_run=dict(ifam.HYP, note='number of generated charts (counted once per case file) passing the decidable '
+                                                   'forms of DESIGN.md section 2 (C02Proofs.wf_chart_b) and of the tree hypotheses (C03Proofs.tree_okb)'),
         mismatches_not_about_this_property=other, samples=samples,
         source_blobs=repo_blob_ids(['sismic/interpreter/default.py', 'sismic/code/python.py', 'sismic/utilities.py',
                                     'sismic/model/statechart.py', 'sismic/interpreter/listener.py']),
@@ -173,6 +184,9 @@ def interest_c01(mask, fdk, mcode, case):
 
 
 def interest_c02(mask, fdk, mcode, case):
+    pub = case['post'].get('public_config')
+    if pub is not None and case['out'][0] != 'err' and sorted(pub) != sorted(case['post']['config']):
+        return 'Interpreter.configuration (the public view) is not the active configuration after execute_once returned (C02_step)'
     if mask & B.PB_LEGAL:
         return 'configuration after a normal return is neither empty nor legal and stable (C02_step)'
     return None
@@ -181,7 +195,12 @@ def interest_c02(mask, fdk, mcode, case):
 def interest_c03(mask, fdk, mcode, case):
     if mask & B.PB_REPLAY:
         return 'replaying exited/entered lists of the MacroStep does not give the configuration (C03_trace_truth)'
-    if mask & (B.SELECTED | B.OUTCOME | B.EVENT) or not premise_ok(case):
+    # the model runs on the recorded answers of the evaluator: when the implementation executes code in another order the
+    # model asks a question that was never recorded and stops with ECode -- that is a divergence of the trace, not of the outcome
+    oracle_miss = mcode == 'ECode' and ifam.impl_outcome(case) != 'ECode'
+    if mask & (B.SELECTED | B.EVENT) or not premise_ok(case):
+        return None
+    if mask & B.OUTCOME and not oracle_miss:
         return None
     if fd_in(fdk, EXEC):
         return 'code fragments executed differ in order or content from the documented order (C03_trace_truth/C03_atomic)'
